@@ -10,6 +10,7 @@
 From Coq Require Import List Arith Bool NArith.
 From AV Require Import model.C05_model model.C05_old_model model.C05_run proofs.C05_proofs proofs.C05_safety proofs.C05_repl
   proofs.C05_phys proofs.C05_spec proofs.C05_witness proofs.C05_fixed_proofs proofs.C05_main.
+From AV Require Import model.C06_model model.C05_desired model.C05_sweeps proofs.C05_desired_proofs proofs.C05_sweeps_proofs.
 Import ListNotations.
 
 (* ---- the whole property, for every layout, replica set and Desired --------------------------------- *)
@@ -115,3 +116,88 @@ Theorem C05_old_algorithm_partial : forall c, hyp_b c = true ->
   let '(chs, lost) := m_out_old c in Spec c (trashes chs) (pulls chs) lost.
 Proof. exact model_meets_spec_partial. Qed.
 Print Assumptions C05_old_algorithm_partial.
+
+(* ---- where Desired comes from: the collections that reference the block (model/C05_desired.v = block_state.go
+   increaseDesired / IncreaseDesired + balance.go addCollection) ------------------------------------------- *)
+
+(* Desired[class] is the largest replication level among the referencing collections that list the class - a
+   collection listing no class lists "default" (id dflt), one without replication_desired counts with the default
+   replication dr; `demands` has one entry (class, level) per referencing collection and class it lists *)
+Theorem C05_desired_is_max_over_referencing_collections : forall dflt dr ks c,
+  lookup (desired_of dflt dr ks) c =
+  fold_right Nat.max 0 (map snd (filter (fun kd => fst kd =? c) (demands dflt dr ks))).
+Proof. exact desired_of_is_max. Qed.
+Print Assumptions C05_desired_is_max_over_referencing_collections.
+
+(* it is a map (one entry per class), covers every positive demand and contains nothing nobody asked for *)
+Theorem C05_desired_covers_exactly_the_demands : forall dflt dr ks,
+  NoDup (map fst (desired_of dflt dr ks)) /\
+  (forall k d, In (k, d) (demands dflt dr ks) -> 0 < d -> exists d', In (k, d') (desired_of dflt dr ks) /\ d <= d') /\
+  (forall k d, In (k, d) (desired_of dflt dr ks) -> 0 < d -> In (k, d) (demands dflt dr ks)).
+Proof.
+  intros dflt dr ks. split; [apply desired_of_nodup|]. split; [apply demand_covered|apply desired_is_some_demand].
+Qed.
+Print Assumptions C05_desired_covers_exactly_the_demands.
+
+(* the whole property from collections to trash lists: for every layout and replica set (mount ids distinct, replicas
+   on reported mounts: wfl_b) and EVERY list of referencing collections - any classes in any order, repeated or
+   offered by no mount, any replication levels, with or without replication_desired - the lists computed from the
+   derived Desired satisfy the specification with respect to every single demand of every referencing collection
+   (b_spec_case b = the layout with c_desired := demands; b_model_case b = the layout with c_desired := desired_of) *)
+Theorem C05_collections_to_trash_lists_meet_spec : forall b, wfl_b (b_case b) = true ->
+  let '(chs, lost) := m_out (b_model_case b) in Spec (b_spec_case b) (trashes chs) (pulls chs) lost.
+Proof. exact coll_meets_spec. Qed.
+Print Assumptions C05_collections_to_trash_lists_meet_spec.
+
+(* the boolean that judges the real addCollection + ComputeChangeSets reflects that specification *)
+Theorem C05_collection_spec_b_reflects : forall b,
+  b_spec_b b = true <-> Spec (b_spec_case b) (o_trash (b_case b)) (o_pull (b_case b)) (o_lost (b_case b)).
+Proof. exact b_spec_b_reflects. Qed.
+Print Assumptions C05_collection_spec_b_reflects.
+
+(* regression witness: a class loop that stops at the first class whose entry is already high enough forgets the
+   remaining classes of that collection; a needed replica is trashed (class 0 falls from 1 to 0) *)
+Theorem C05_desired_stopping_variant_refuted :
+  desired_of_stop 1 2 (b_colls w_stop) = [(1, 1)] /\
+  desired_of 1 2 (b_colls w_stop) = [(1, 1); (0, 1)] /\
+  trashes (fst (m_out (with_desired (b_case w_stop) (desired_of_stop 1 2 (b_colls w_stop))))) = [(2, 11)] /\
+  trashes (fst (m_out (b_model_case w_stop))) = [] /\
+  wfl_b (b_case w_stop) = true /\
+  spec_core (b_spec_case w_stop) [(2, 11)] [] false = false.
+Proof. exact stop_variant_refuted. Qed.
+Print Assumptions C05_desired_stopping_variant_refuted.
+
+(* ---- trash lists across runs of one keep-balance process (model/C05_sweeps.v = Balancer.Run: rendezvousState,
+   ClearTrashLists, SafeRendezvousState, CommitPulls, CommitTrash; Server.runOnce hands RunOptions on) -------- *)
+
+(* For every CommitPulls setting, every sequence of runs - any service lists, restarts of keep-balance, at most one
+   failing request per run at any point (service list, mounts, sanity checks, a server's clearing PUT, discovery
+   document, an index, a collection page, a server's pull or trash list), any computed lists - and whatever trash
+   lists the keepstores held before the process started (p0): when the process commits trash lists, no index is
+   ever read from a server that holds, at that moment, a non-empty trash list that was not computed for the
+   current service list (such a list could be carried out after the index was read and remove a replica the new
+   lists rely on).  pend_before = the lists held when run i starts, pend_after = after a prefix of its requests. *)
+Theorem C05_no_index_read_under_a_stale_trash_list : forall cp ct ins p0,
+  ct = true -> forall i set log, nth_error (logs (seq_model cp ct None ins)) i = Some (set, log) ->
+  ~ exists pre s post, log = pre ++ EvIndex s :: post /\
+      exists tag, pget (pend_after set pre (pend_before (logs (seq_model cp ct None ins)) p0 i)) s = Some tag /\
+                  tag <> Some set.
+Proof. exact model_stale_free. Qed.
+Print Assumptions C05_no_index_read_under_a_stale_trash_list.
+
+(* the boolean that judges the request sequences seen by the stub keepstores reflects that statement *)
+Theorem C05_stale_free_b_reflects : forall ct runs p,
+  stale_free ct runs p = true <->
+  (ct = true -> forall i set log, nth_error runs i = Some (set, log) ->
+   ~ exists pre s post, log = pre ++ EvIndex s :: post /\
+       exists tag, pget (pend_after set pre (pend_before runs p i)) s = Some tag /\ tag <> Some set).
+Proof. exact stale_free_reflects. Qed.
+Print Assumptions C05_stale_free_b_reflects.
+
+(* regression witness: marking the service list "safe" before the clearing lists were accepted - after a failed
+   clearing the next run reads server 1's index while it still holds the list computed for services {0,1} *)
+Theorem C05_early_safe_marking_variant_refuted :
+  stale_free true (logs (seq_model_early true true None w_early)) [] = false /\
+  stale_free true (logs (seq_model true true None w_early)) [] = true.
+Proof. exact early_marking_refuted. Qed.
+Print Assumptions C05_early_safe_marking_variant_refuted.
